@@ -1,5 +1,8 @@
 import SaModel.Lemmas.C02TypedStruct
 import SaModel.Lemmas.C02DecodeAt
+import SaModel.Lemmas.C02Total
+import SaModel.Lemmas.C02Supported
+import SaModel.Lemmas.C15Format
 /-
 C02 — deserializing any valid Arrow array yields exactly its logical content.
 Property theorems only.  Model: SaModel/Read/Reader.lean (`Fixes.all`); specification: SaModel/Spec/Decode.lean
@@ -116,8 +119,7 @@ theorem read_typed_sound : ∀ (t : Target), Sound t
   | .str => sound_scalar (m := .str) rfl (fun _ _ => by simp only [Read.cast]) (fun _ _ _ => by simp only [readAs])
   | .bytes => sound_scalar (m := .bytes) rfl (fun _ _ => by simp only [Read.cast])
       (fun a _ hl => by cases a <;> first | exact absurd rfl (hl _ _ _ _ _) | simp only [readAs])
-  | .byteBuf => sound_scalar (m := .byteBuf) rfl (fun _ _ => by simp only [Read.cast])
-      (fun a _ hl => by cases a <;> first | exact absurd rfl (hl _ _ _ _ _) | simp only [readAs])
+  | .byteBuf => sound_byteBuf
   | .option t => sound_option (read_typed_sound t)
   | .newtype t => sound_newtype (read_typed_sound t)
   | .seq t => sound_seq (read_typed_sound t)
@@ -157,13 +159,81 @@ end
 /-- C02 for typed reads: for EVERY target type `t` (scalars, `Option`, newtype, `Vec`, tuples and tuple structs, maps,
 structs by field name, enums by variant name or index, nested to any depth), EVERY array `a` and slot `i` whose Arrow
 reading is defined, under the hypotheses of `read_any_decode`: whatever the value-level specification demands
-(`cast t a lv = must d`) is what the typed read returns.  `cast` demands nothing (`na`) where the reader does not
-support the pair, and says `mustFail` for a null slot and a non-Option target — what the code does there for container
-columns is `null_*_reads_hidden_data` below (known finding C02-null-container-into-non-option). -/
+(`cast t a lv = must d`) is what the typed read returns.  `cast` covers EVERY (target, column) pair: it says `must d`
+for every pair the reader supports (Dictionary → `&str` / `String` / enum-as-string, struct → map with any key target a
+field name can be read into (String, ByteBuf, char, enum-by-name, any, IgnoredAny), temporal / decimal columns → String /
+ByteBuf through the codecs of C14 / C15, f64 → f32 by IEEE narrowing, `ByteBuf` from a list of u8 included) and
+`mustFail` for a value the target cannot hold, a value the codec refuses and a pair the reader does not offer
+(`Props.C05.read_mustFail`: the read fails there); it is `na` only where field names repeat (`cast_na_only`).  What the
+code does for a null container slot and a non-Option target is `null_*_reads_hidden_data` below (known finding
+C02-null-container-into-non-option). -/
 theorem read_typed_decode (t : Target) (a : Arr) (i : Nat) (lv : LVal) (d : DVal)
     (h : decodeAt a i = .ok lv) (hn : new Fixes.all a = .ok ()) (hp : physical a = true) (hu : utf8Ok lv = true)
     (hc : Read.cast t a lv = must d) : readAs Fixes.all t a i = .ok d :=
   read_typed_sound t a i lv d h hn hp hu hc
+
+/-! ### no silent cells: `cast` is `na` only where field names repeat
+
+`naCell t a` (decidable, `Lemmas/C02Total.lean`): a struct / struct variant of the target lists a field name twice (no
+Rust type does), or a struct column inside the view has two children of the same name.  Outside of it every cell is
+`must d` (then `read_typed_decode`: the read returns `d`) or `mustFail` (then `Props.C05.read_mustFail`: the read
+fails; together: `Props.C05.read_typed_total`). -/
+
+theorem cast_na_only (t : Target) (a : Arr) (lv : LVal) (h : Read.cast t a lv = na) : naCell t a = true := by
+  cases hc : naCell t a with
+  | true => rfl
+  | false =>
+    simp only [naCell, Bool.not_eq_false', Bool.and_eq_true] at hc
+    exact absurd h (cast_nn t hc.1 a lv hc.2)
+
+/-- the characterisation, as an equivalence on the cell: some value of the cell is left without a claim only if the
+cell repeats names — and a cell that does is outside of the claim of this file (`structClaim`) -/
+theorem cast_na_iff (t : Target) (a : Arr) : (∃ lv, Read.cast t a lv = na) → naCell t a = true :=
+  fun ⟨lv, h⟩ => cast_na_only t a lv h
+
+theorem cast_must_or_mustFail (t : Target) (a : Arr) (lv : LVal) (h : naCell t a = false) :
+    (∃ d, Read.cast t a lv = must d) ∨ (∃ e, Read.cast t a lv = .error e) := by
+  cases hc : Read.cast t a lv with
+  | error e => exact .inr ⟨e, rfl⟩
+  | ok o =>
+    cases o with
+    | some d => exact .inl ⟨d, rfl⟩
+    | none => have := cast_na_only t a lv hc; rw [h] at this; cases this
+
+/-- the `na` cells exist (a struct column with two children `x` read by name), and the leaf table has none -/
+example : Read.cast (.struct (.cons "x" (.int .i32) .nil))
+    (.struct 1 none (.cons ⟨"x", false, []⟩ (.prim .int32 none [1]) (.cons ⟨"x", false, []⟩ (.prim .int32 none [2]) .nil)))
+    (.struct (.cons "x" (.int 1) (.cons "x" (.int 2) .nil))) = na := by decide
+example : naCell (.map .char (.seq (.option .str))) (.struct 1 none (.cons ⟨"x", false, []⟩ (.prim .int32 none [1]) .nil)) = false := by
+  decide
+
+/-- the text of a Decimal128 slot is `format_decimal` (C15): for every `i128` value and `i8` scale -/
+theorem decimalRepr_spec (v s : Int) (hv : SaModel.Decimal.inI128 v) (hs : SaModel.Decimal.inI8 s) :
+    SaModel.Decimal.formatDecimal v s = .ok (decimalRepr s v) := by
+  have h := SaModel.Lemmas.C15.formatDecimal_eq v s hv hs
+  unfold decimalRepr
+  rw [h]
+
+/-! ### 'supported array' from the documentation side (`Lemmas/C02Supported.lean`)
+
+`supportedView a` (decidable, written without the model constructor): leaf kinds always; Timestamp naive or UTC;
+FixedSizeBinary(n ≥ 0) with data divisible by n; children carry only known `SERDE_ARROW:strategy` entries;
+FixedSizeList n ≥ 0; Dictionary with integer keys and Utf8 / LargeUtf8 values WITHOUT a validity buffer; Union dense, as
+many offsets as type ids, type ids 0, 1, 2, ….  `new_ok_iff_supported : new Fixes.all a = .ok () ↔ supportedView a`. -/
+
+theorem read_any_decode_supported (a : Arr) (i : Nat) (lv : LVal)
+    (h : decodeAt a i = .ok lv) (hs : supportedView a = true) (hp : physical a = true) (hu : utf8Ok lv = true) :
+    readAny Fixes.all a i = .ok (toD a lv) :=
+  read_any_decode a i lv h ((new_ok_iff_supported a).2 hs) hp hu
+
+theorem read_typed_decode_supported (t : Target) (a : Arr) (i : Nat) (lv : LVal) (d : DVal)
+    (h : decodeAt a i = .ok lv) (hs : supportedView a = true) (hp : physical a = true) (hu : utf8Ok lv = true)
+    (hc : Read.cast t a lv = must d) : readAs Fixes.all t a i = .ok d :=
+  read_typed_decode t a i lv d h ((new_ok_iff_supported a).2 hs) hp hu hc
+
+/-- an unsupported view is refused when the reader is built: no read happens -/
+theorem unsupported_refused (a : Arr) (h : supportedView a = false) : ∃ e, new Fixes.all a = .error e :=
+  new_err_of_not_supported a h
 
 /-- the same, stated with the materialising oracle `Spec.decode` -/
 theorem read_typed_decode_spec (t : Target) (a : Arr) (i : Nat) (lv : LVal) (d : DVal)
@@ -226,6 +296,44 @@ example : ∀ i ∈ [0, 1], ∀ t ∈ exTargets, exLv i ≠ .null ∧
   obtain ⟨h1, h2, h3, h4⟩ := hd i hi
   obtain ⟨d, hc⟩ := isMust_elim (List.all_eq_true.mp h4 t ht)
   exact ⟨h3, d, hc, read_typed_decode t exCol i (exLv i) d h1 hn hp h2 hc⟩
+
+/-! non-vacuity of the newly covered cells (computed): a dictionary column as borrowed `&str` and as enum-by-name, a
+Date32 / Time64(us) / Timestamp(ms, UTC) / Duration(ns) / Decimal128(scale 2) column as `String`, Float64 as `f32`
+(1.1 rounds to 0x3F8CCCCD; 1e300 overflows to +inf), a struct read as `HashMap<char, i64>` and as a map keyed by an enum,
+`ByteBuf` from a List<UInt8>: `cast` demands the value shown and (by `read_typed_decode`) the read returns it -/
+def exCells : List (Target × Arr × DVal) :=
+  [ (.str, .dictionary (.prim .int8 none [1]) (.bytes .utf8 none [0, 1, 3] [97, 98, 99]), .str .borrowed [98, 99]),
+    (.enum false (.cons "a" .unit (.cons "bc" .unit .nil)),
+      .dictionary (.prim .int8 none [1]) (.bytes .utf8 none [0, 1, 3] [97, 98, 99]), .enum (.str .transient [98, 99]) .unit),
+    (.string, .prim .date32 none [-1], .str .owned (strBytes "1969-12-31")),
+    (.string, .time .time64 .microsecond none [3723000004], .str .owned (strBytes "01:02:03.000004")),
+    (.string, .timestamp .millisecond (some "UTC") none [1500], .str .owned (strBytes "1970-01-01T00:00:01.500Z")),
+    (.byteBuf, .time .duration .nanosecond none [-1500000000], .bytes .owned (strBytes "-PT1.500000000s")),
+    (.string, .decimal128 5 2 none [-1234], .str .owned (strBytes "-12.34")),
+    (.f32, .prim .float64 none [0x3FF199999999999A], .f32 0x3F8CCCCD),
+    (.f32, .prim .float64 none [0x7E37E43C8800759C], .f32 0x7F800000),
+    (.map .char (.int .i64), .struct 1 none (.cons ⟨"k", false, []⟩ (.prim .int8 none [5]) .nil),
+      .map (.cons (.char 107) (.int .i64 5) .nil)),
+    (.map (.enum false (.cons "k" .unit .nil)) .any, .struct 1 none (.cons ⟨"k", false, []⟩ (.prim .int8 none [5]) .nil),
+      .map (.cons (.enum (.str .transient [107]) .unit) (.int .i8 5) .nil)),
+    (.byteBuf, .list false none [0, 2] ⟨"element", false, []⟩ (.prim .uint8 none [7, 255]), .bytes .owned [7, 255]) ]
+
+example : ∀ c ∈ exCells, ∃ lv, decodeAt c.2.1 0 = .ok lv ∧ lv ≠ .null ∧ Read.cast c.1 c.2.1 lv = must c.2.2 ∧
+    readAs Fixes.all c.1 c.2.1 0 = .ok c.2.2 := by
+  have hd : ∀ c ∈ exCells, decodeAt c.2.1 0 = .ok (match decodeAt c.2.1 0 with | .ok lv => lv | .error _ => .null) ∧
+      (match decodeAt c.2.1 0 with | .ok lv => lv | .error _ => .null) ≠ .null ∧
+      supportedView c.2.1 = true ∧ physical c.2.1 = true ∧
+      utf8Ok (match decodeAt c.2.1 0 with | .ok lv => lv | .error _ => .null) = true ∧
+      Read.cast c.1 c.2.1 (match decodeAt c.2.1 0 with | .ok lv => lv | .error _ => .null) = must c.2.2 := by decide +kernel
+  intro c hc
+  obtain ⟨h1, h2, h3, h4, h5, h6⟩ := hd c hc
+  exact ⟨_, h1, h2, h6, read_typed_decode_supported c.1 c.2.1 0 _ c.2.2 h1 h3 h4 h5 h6⟩
+
+/-- and the refusals of the same cells: the borrowed targets on a created text, a date outside chrono's range -/
+example : Read.cast .str (.prim .date32 none [0]) (.int 0) = mustFail "unsupported (target, column) pair" ∧
+    Read.cast .string (.prim .date64 none [9223372036854775807]) (.int 9223372036854775807) = mustFail "Unsupported date value" ∧
+    Read.cast (.map .char .any) (.struct 1 none (.cons ⟨"kk", false, []⟩ (.null 1) .nil))
+      (.struct (.cons "kk" .null .nil)) = mustFail "not a char" := by decide +kernel
 
 /-! ### known finding C02-null-container-into-non-option (#23): what the code does
 
